@@ -174,25 +174,87 @@ func c11Pair[V univers.Version[V], VR univers.VersionRange[V]](e univers.Ecosyst
 	// a missing release is compared only with a missing release (RPM compares the release of
 	// two packages; what an absent one means is tool-specific)
 	vv.Assume(rpmSameShape(a, b))
-	vv.Assume(!vv.Known("KF-C11-rpm-not-rpmvercmp", orb(c11Outside(a), c11Outside(b))))
+	vv.Assume(!vv.Known("KF-C11-rpm-not-rpmvercmp", c11Outside(a, b)))
 	vv.Assert(sign(va.Compare(vb)) == rpmCompare(a, b), "C11: order differs from rpmvercmp")
 }
 
-// c11Outside: the input uses a feature of rpmvercmp that go-univers' pairwise scanner does not
-// implement faithfully: letters, '^', the separators '_' and '+', repeated or trailing
-// separators (inputs only).
-func c11Outside(s string) bool {
-	for i := 0; i < len(s); i++ {
-		c := s[i]
-		if isAlpha(c) || c == '^' || c == '_' || c == '+' {
-			return true
+// Scope of KF-C11-rpm-not-rpmvercmp. go-univers compares RPM versions with a scan over (non-digit
+// run, digit run) pairs instead of rpmvercmp's alpha/numeric segments. pairScan transliterates
+// that scanner as it stands at the recorded finding (an existing test pins "1.2.3-1 < 1.2.3-a",
+// so it cannot be repaired); the finding covers exactly the pairs on which the scanner and
+// rpmvercmp disagree. On every other pair C11 requires the library to agree with rpmvercmp, so a
+// change of behaviour anywhere the library is right today is still reported. (inputs only)
+func c11Outside(a, b string) bool {
+	return pairScanCompare(a, b) != rpmCompare(a, b)
+}
+
+func pairSep(c byte) bool { return c == '.' || c == '+' || c == '-' || c == '^' }
+
+func pairScan(a, b string) int {
+	i, j := 0, 0
+	for i < len(a) || j < len(b) {
+		for i < len(a) && pairSep(a[i]) {
+			i++
 		}
-		if c == '~' && (i+1 == len(s) || s[i+1] == '~' || s[i+1] == '.' || s[i+1] == '-') {
-			return true
+		for j < len(b) && pairSep(b[j]) {
+			j++
 		}
-		if c == '.' && (i+1 == len(s) || s[i+1] == '.' || s[i+1] == '-' || s[i+1] == '~' || i == 0) {
-			return true
+		is := i
+		for i < len(a) && !isDig(a[i]) && !pairSep(a[i]) {
+			i++
+		}
+		js := j
+		for j < len(b) && !isDig(b[j]) && !pairSep(b[j]) {
+			j++
+		}
+		an, bn := a[is:i], b[js:j]
+		at := len(an) > 0 && an[0] == '~'
+		bt := len(bn) > 0 && bn[0] == '~'
+		if at && !bt {
+			return -1
+		}
+		if !at && bt {
+			return 1
+		}
+		if an < bn {
+			return -1
+		}
+		if an > bn {
+			return 1
+		}
+		is = i
+		for i < len(a) && isDig(a[i]) {
+			i++
+		}
+		js = j
+		for j < len(b) && isDig(b[j]) {
+			j++
+		}
+		ad, bd := a[is:i], b[js:j]
+		if ad == "" && bd == "" {
+			continue
+		}
+		if ad == "" {
+			return -1
+		}
+		if bd == "" {
+			return 1
+		}
+		if c := decCmp(ad, bd); c != 0 {
+			return c
 		}
 	}
-	return false
+	return 0
+}
+
+func pairScanCompare(a, b string) int {
+	ea, va, ra, _, _ := rpmSplit(a)
+	eb, vb, rb, _, _ := rpmSplit(b)
+	if c := decCmp(ea, eb); c != 0 {
+		return c
+	}
+	if c := pairScan(va, vb); c != 0 {
+		return c
+	}
+	return pairScan(ra, rb)
 }
